@@ -151,6 +151,15 @@ CHECKS = {
              "dict export.",
         design="6/C11", note="partial by nature: codec assumed (checked on explored values).",
         technique="Coq proof parametrised by the codec + correspondence"),
+    "C09": dict(
+        text="Theorems: C09_rows - for every tree, style, maxlevel and every childiter that selects/reorders the given "
+             "children, the generator's rows are exactly the pointwise rows of the statement on the rendered tree "
+             "(pre-order, bar/blank per ancestor with a following sibling, continue/end branch), fuel sufficient; widths "
+             "for equal-width styles; the four extracted built-in styles are equal-width; text line rule. Reconstruction "
+             "from the text is kept visible, not proved. Tie: every shape <= 5 nodes x maxlevel x 5 childiters x 6 styles "
+             "x value kinds x selectors, rows and full text compared; Node/AnyNode reprs against the _repr model.",
+        design="6/C09", note="repr/str/splitlines are CPython's (lines shipped); Node repr modelled for plainly quotable names.",
+        technique="Coq proof (generator = structural rows = pointwise rows) + correspondence"),
 }
 
 NOT_YET = "check not built yet in this round (work in progress; see DESIGN.md section 6 for the plan)"
